@@ -505,6 +505,20 @@ def sdss_specobjid(plate, fiber, mjd, run2d, line=None, index=None):
                              dtype=np.uint64)
     elif isinstance(run2d, int):
         run2d = np.array([run2d])
+    elif np.asarray(run2d).dtype.kind in 'US':
+        # An array of strings: integers or "vN_M_P", element by element.
+        r = np.zeros(np.asarray(run2d).shape, dtype=np.int64)
+        for k, v in np.ndenumerate(np.asarray(run2d)):
+            v = v.decode() if isinstance(v, bytes) else str(v)
+            try:
+                r[k] = int(v)
+            except ValueError:
+                m = re.match(r'v(\d+)_(\d+)_(\d+)', v)
+                if m is None:
+                    raise ValueError("Could not extract integer run2d value!")
+                N, M, P = m.groups()
+                r[k] = (int(N) - 5)*10000 + int(M) * 100 + int(P)
+        run2d = r
     if line is None:
         line = np.zeros(plate.shape, dtype=plate.dtype)
     else:
